@@ -287,6 +287,12 @@ class AlterOracle:
             "RENAME b TO rb": [("KW", "RENAME"), ("KW", "COLUMN"), (C["b"], "col1"), (TO, None), (rb, "to")],
             "DROP b": [("KW", "DROP"), ("KW", "COLUMN"), (C["b"], "col1")],
             "DROP nc": [("KW", "DROP"), ("KW", "COLUMN"), (nc, "col1")],
+            "MODIFY c": [("KW", "MODIFY"), ("KW", "COLUMN"), (C["c"], "col1"), (C["typ2"], "type")],
+            "UNIQUE (c)": [("KW", "ADD"), ("KW", "CONSTRAINT"), (C["cn"], "cname"), ("KW", "UNIQUE"), P["("], (C["c"], "col1"), P[")"]],
+            "UNIQUE (rb)": [("KW", "ADD"), ("KW", "CONSTRAINT"), (C["cn"], "cname"), ("KW", "UNIQUE"), P["("], (rb, "col1"), P[")"]],
+            "DEFAULT FOR c": [("KW", "ADD"), ("KW", "CONSTRAINT"), (C["cn"], "cname"), ("KW", "DEFAULT"), (C["str"], "value"), ("KW", "FOR"), (C["c"], "col1")],
+            "DEFAULT FOR rb": [("KW", "ADD"), ("KW", "CONSTRAINT"), (C["cn"], "cname"), ("KW", "DEFAULT"), (C["str"], "value"), ("KW", "FOR"), (rb, "col1")],
+            "DEFAULT FOR nc": [("KW", "ADD"), ("KW", "CONSTRAINT"), (C["cn"], "cname"), ("KW", "DEFAULT"), (C["str"], "value"), ("KW", "FOR"), (nc, "col1")],
             "FK (rb)": [("KW", "ADD"), ("KW", "FOREIGN"), ("KW", "KEY"), P["("], (rb, "col1"), P[")"], ("KW", "REFERENCES"), (C["o"], "ref_table"),
                         P["("], (C["x"], "ref_col1"), P[")"]],
             "FK (nc)": [("KW", "ADD"), ("KW", "FOREIGN"), ("KW", "KEY"), P["("], (nc, "col1"), P[")"], ("KW", "REFERENCES"), (C["o"], "ref_table"),
@@ -313,6 +319,13 @@ class AlterOracle:
             (["ADD nc", "DROP nc", "FK (a)"], [A, B, Cc]),
             (["ADD nc", "ADD nd", "DROP nc", "RENAME b TO rb", "FK (rb)"], [A, rb.word, Cc, nd.word]),
             (["DROP b", "ADD nc", "DROP nc", "ADD nd"], [A, Cc, nd.word]),
+            # a column-level effect (unique flag, default) reaches the column as it is AFTER the earlier statements: modified,
+            # renamed or added by them (no look-up structure built before them may be consulted)
+            (["MODIFY c", "UNIQUE (c)"], [A, B, Cc]),
+            (["RENAME b TO rb", "UNIQUE (rb)"], [A, rb.word, Cc]),
+            (["MODIFY c", "DEFAULT FOR c"], [A, B, Cc]),
+            (["RENAME b TO rb", "DEFAULT FOR rb"], [A, rb.word, Cc]),
+            (["ADD nc", "DEFAULT FOR nc"], [A, B, Cc, nc.word]),
         ]
         cache = {}
 
@@ -336,59 +349,101 @@ class AlterOracle:
                 cache[(ti, name)] = parse_linear(ctx, f"seq-{ti}-{name}", build, one_segment=tails[name] != "index")
             return cache[(ti, name)]
         want_keys = {"name", "type", "size", "references", "unique", "nullable", "default", "check"}
-        for ti in (2, 0):
-            for names, exp in scenarios:
-                self.checked += 1
-                label = " ; ".join(names)
-                wit = f"CREATE TABLE (a, \"B\", c) x4 ; then on table #{ti + 1}: " + label
+        jobs = [(ti, names, exp) for ti in (2, 0) for names, exp in scenarios]
+        for ti, names, _e in jobs:          # the statements are parsed here, once; the workers only evaluate the output layer
+            for n in names:
+                stmt(ti, n)
+
+        def one(job, col, checked):
+            ti, names, exp = job
+            checked[0] += 1
+            label = " ; ".join(names)
+            wit = f"CREATE TABLE (a, \"B\", c) x4 ; then on table #{ti + 1}: " + label
+            try:
+                out = self.fmt(ctx, copy.deepcopy(self.base) + [copy.deepcopy(stmt(ti, n)) for n in names], "sql")
+            except (PyRaise, ShapeMismatch) as e:
+                col.add("O-final", f"alter sequence `{label}`: the output layer fails", f"{e}", wit)
+                return
+            except (LexUnknown, NonUniform) as e:
+                raise AnalysisError(f"alter sequences: output layer outside the interpreted subset on `{label}`: {e}")
+            if not isinstance(out, list) or len(out) != 4:
+                col.add("O-final", f"alter sequence `{label}`: number of entries", f"{show(out)!r}"[:300], wit)
+                return
+            bad = None
+            for i in range(4):
+                if i != ti and not deep_eq_safe(out[i], self.alone["sql"][i]):
+                    bad = f"table #{i + 1} changed although every statement names table #{ti + 1}"
+            cols = out[ti].get("columns")
+            if bad is None and (not isinstance(cols, list) or not all(isinstance(c, dict) and want_keys <= set(c) for c in cols)):
+                bad = ("a column entry does not have the documented keys: " +
+                       repr(show([sorted(map(str, c)) if isinstance(c, dict) else c for c in (cols or [])
+                                  if not (isinstance(c, dict) and want_keys <= set(c))]))[:300])
+            if bad is None and not deep_eq_safe([c["name"] for c in cols], exp):
+                bad = f"columns {show([c['name'] for c in cols])!r}, declared {show(exp)!r}"
+            if bad is None and names[-1] == "UNIQUE (nc)" and not any(deep_eq_safe(c["name"], nc.word) and c["unique"] is True for c in cols):
+                bad = "the added column is not flagged unique"
+            for last, wd in (("UNIQUE (c)", Cc), ("UNIQUE (rb)", rb.word)):
+                if bad is None and names[-1] == last and [c["unique"] is True for c in cols] != [deep_eq_safe(c["name"], wd) for c in cols]:
+                    bad = f"exactly the column {show(wd)!r} must be flagged unique, flags: {show([(c['name'], c['unique']) for c in cols])!r}"[:300]
+            for last, wd in (("DEFAULT FOR c", Cc), ("DEFAULT FOR rb", rb.word), ("DEFAULT FOR nc", nc.word)):
+                if bad is None and names[-1] == last:
+                    hit = [c for c in cols if deep_eq_safe(c["name"], wd)]
+                    if len(hit) != 1 or not deep_eq_safe(hit[0]["default"], C["str"].word) or any(
+                            c["default"] is not None for c in cols if c is not hit[0]):
+                        bad = f"exactly the column {show(wd)!r} must get the default {show(C['str'].word)!r}: {show([(c['name'], c['default']) for c in cols])!r}"[:300]
+            if bad is None and any(n_ == "INDEX (a)" for n_ in names):
+                ixs = out[ti].get("index")
+                if not (isinstance(ixs, list) and len(ixs) == 1 and isinstance(ixs[0], dict) and deep_eq_safe(ixs[0].get("columns"), [A])):
+                    bad = f"the index is not attached to its table: index = {show(ixs)!r}"[:300]
+            if bad:
+                col.add("O-final", f"alter sequence `{label}`: the table is not what the statements declare one after the other", bad, wit)
+                return
+            # ... and no output mode turns the script into an error or changes the common part of the target table
+            for mode in extra_modes:
+                checked[0] += 1
                 try:
-                    out = self.fmt(ctx, copy.deepcopy(self.base) + [copy.deepcopy(stmt(ti, n)) for n in names], "sql")
+                    om = self.fmt(ctx, copy.deepcopy(self.base) + [copy.deepcopy(stmt(ti, n)) for n in names], mode)
                 except (PyRaise, ShapeMismatch) as e:
-                    ex.add("O-final", f"alter sequence `{label}`: the output layer fails", f"{e}", wit)
+                    col.add("O-mode", f"alter sequence `{label}`: mode `{mode}` turns a successful script into an error", f"{e}", wit + f"   (output_mode={mode})")
                     continue
                 except (LexUnknown, NonUniform) as e:
-                    raise AnalysisError(f"alter sequences: output layer outside the interpreted subset on `{label}`: {e}")
-                if not isinstance(out, list) or len(out) != 4:
-                    ex.add("O-final", f"alter sequence `{label}`: number of entries", f"{show(out)!r}"[:300], wit)
-                    continue
-                bad = None
-                for i in range(4):
-                    if i != ti and not deep_eq_safe(out[i], self.alone["sql"][i]):
-                        bad = f"table #{i + 1} changed although every statement names table #{ti + 1}"
-                cols = out[ti].get("columns")
-                if bad is None and (not isinstance(cols, list) or not all(isinstance(c, dict) and want_keys <= set(c) for c in cols)):
-                    bad = ("a column entry does not have the documented keys: " +
-                           repr(show([sorted(map(str, c)) if isinstance(c, dict) else c for c in (cols or [])
-                                      if not (isinstance(c, dict) and want_keys <= set(c))]))[:300])
-                if bad is None and not deep_eq_safe([c["name"] for c in cols], exp):
-                    bad = f"columns {show([c['name'] for c in cols])!r}, declared {show(exp)!r}"
-                if bad is None and names[-1] == "UNIQUE (nc)" and not any(deep_eq_safe(c["name"], nc.word) and c["unique"] is True for c in cols):
-                    bad = "the added column is not flagged unique"
-                if bad is None and any(n_ == "INDEX (a)" for n_ in names):
-                    ixs = out[ti].get("index")
-                    if not (isinstance(ixs, list) and len(ixs) == 1 and isinstance(ixs[0], dict) and deep_eq_safe(ixs[0].get("columns"), [A])):
-                        bad = f"the index is not attached to its table: index = {show(ixs)!r}"[:300]
-                if bad:
-                    ex.add("O-final", f"alter sequence `{label}`: the table is not what the statements declare one after the other", bad, wit)
-                    continue
-                # ... and no output mode turns the script into an error or changes the common part of the target table
-                for mode in extra_modes:
-                    self.checked += 1
-                    try:
-                        om = self.fmt(ctx, copy.deepcopy(self.base) + [copy.deepcopy(stmt(ti, n)) for n in names], mode)
-                    except (PyRaise, ShapeMismatch) as e:
-                        ex.add("O-mode", f"alter sequence `{label}`: mode `{mode}` turns a successful script into an error", f"{e}", wit + f"   (output_mode={mode})")
-                        continue
-                    except (LexUnknown, NonUniform) as e:
-                        raise AnalysisError(f"alter sequences: output layer outside the interpreted subset on `{label}` in mode {mode}: {e}")
-                    tm = om[ti] if isinstance(om, list) and len(om) == 4 else None
-                    same_cols = tm is not None and isinstance(tm.get("columns"), list) and len(tm["columns"]) == len(cols) and all(
-                        deep_eq_safe(a_.get(k_), b_.get(k_)) for a_, b_ in zip(tm["columns"], cols) for k_ in want_keys)
-                    same_index = mode == "mssql" or deep_eq_safe(tm.get("index") if tm else None, out[ti].get("index"))     # (mssql adds `clustered`)
-                    if not same_cols or not same_index:
-                        ex.add("O-mode", f"alter sequence `{label}`: columns / index of the target differ from the default mode (mode {mode})",
-                               f"default: columns {show([c['name'] for c in cols])!r}, index {show(out[ti].get('index'))!r}; {mode}: "
-                               f"{show([c.get('name') for c in (tm or {}).get('columns', [])])!r}, index {show((tm or {}).get('index'))!r}"[:500], wit + f"   (output_mode={mode})")
+                    raise AnalysisError(f"alter sequences: output layer outside the interpreted subset on `{label}` in mode {mode}: {e}")
+                tm = om[ti] if isinstance(om, list) and len(om) == 4 else None
+                same_cols = tm is not None and isinstance(tm.get("columns"), list) and len(tm["columns"]) == len(cols) and all(
+                    deep_eq_safe(a_.get(k_), b_.get(k_)) for a_, b_ in zip(tm["columns"], cols) for k_ in want_keys)
+                same_index = mode == "mssql" or deep_eq_safe(tm.get("index") if tm else None, out[ti].get("index"))     # (mssql adds `clustered`)
+                if not same_cols or not same_index:
+                    col.add("O-mode", f"alter sequence `{label}`: columns / index of the target differ from the default mode (mode {mode})",
+                           f"default: columns {show([c['name'] for c in cols])!r}, index {show(out[ti].get('index'))!r}; {mode}: "
+                           f"{show([c.get('name') for c in (tm or {}).get('columns', [])])!r}, index {show((tm or {}).get('index'))!r}"[:500], wit + f"   (output_mode={mode})")
+
+        import multiprocessing as mp
+        import os
+        global _SEQJOB
+
+        def work(i):
+            col, checked = _Collector(None), [0]
+            try:
+                one(jobs[i], col, checked)
+            except AnalysisError as e:
+                return [], 0, str(e)
+            return col.found, checked[0], None
+        n = min(16, os.cpu_count() or 2, len(jobs), int(os.environ.get("SDPVERIF_JOBS") or 64))
+        if mp.current_process().daemon:
+            n = 1
+        _SEQJOB = work
+        if n <= 1:
+            results = [work(i) for i in range(len(jobs))]
+        else:
+            with mp.get_context("fork").Pool(n) as pool:
+                results = pool.map(_seqwork, range(len(jobs)), chunksize=1)
+        _SEQJOB = None
+        for found, checked, err in results:
+            if err:
+                raise AnalysisError(err)
+            self.checked += checked
+            for rule, key, detail, wit in found:
+                ex.add(rule, key, detail, wit)
 
     def finish(self, ex):
         """evaluate the output layer for every accepted statement (in parallel worker processes forked from this one)"""
@@ -571,6 +626,11 @@ class AlterOracle:
 
 
 _JOB = None
+_SEQJOB = None
+
+
+def _seqwork(i):
+    return _SEQJOB(i)
 
 
 class _Collector:
